@@ -16,6 +16,7 @@ CONSTANTS
   DlEnds = {0, 1}
   PreEst = FALSE
   BlockOnRoom = FALSE
+  IdTop = FALSE
   TrackKinds = {"wt","rt","wsp0","wsp1"}
 SPECIFICATION Spec
 VIEW view
